@@ -10,13 +10,15 @@
    entry recorded for its path or as a stray file; a verification that reports nothing therefore means that all of them
    matched (C01_every_entry_is_checked, C01_every_found_file_is_checked, C01_silent_verification_means_match,
    C01_default_handler_success).  The dictionaries are treated as association lists without assuming unique keys.
-   PARTIAL: that the merged dictionary holds exactly the entries of the loaded Manifests below the directory
-   (get_file_entry_dict) is carried by the correspondence engine. *)
+   The merged dictionary drops nothing (Proofs/EntryDict.v): every entry, other than DIST / TIMESTAMP, of every loaded Manifest
+   relevant for the directory whose path lies beneath it is represented by an entry that covers it - same size, every checksum
+   with the same value - so every such Manifest entry is checked (C01_entry_dictionary_drops_nothing,
+   C01_every_manifest_entry_is_checked).  Which Manifests are loaded and relevant is C02's subject. *)
 From Coq Require Import List NArith ZArith.
 From Gemato Require Import Py.PyStr Py.PyPath Gen.Tables Gen.Util Model.Entry Model.Text Model.OpenPGP Model.Hash
   Model.FS Model.Verify Model.Loader.
 From Gemato Require Import Exec.Oracles.
-From Gemato Require Import Proofs.VerifyPath Proofs.KeepGoing Proofs.UtilSpec Proofs.DirSpec Proofs.Compat Proofs.OnlyOffending Proofs.WalkComplete.
+From Gemato Require Import Proofs.VerifyPath Proofs.KeepGoing Proofs.UtilSpec Proofs.DirSpec Proofs.Compat Proofs.OnlyOffending Proofs.WalkComplete Proofs.NoInternal Proofs.ReadSafe Proofs.EntryDict.
 Import ListNotations.
 Open Scope N_scope.
 
@@ -163,6 +165,29 @@ Theorem C01_default_handler_success : forall (L : hashlib) decompress pgp w l pa
 Proof. exact default_handler_logs_nothing. Qed.
 Print Assumptions C01_default_handler_success.
 
+(* the merged entry dictionary drops nothing: [covers e' e] = e' has the size of e and every checksum of e with the same value
+   (an IGNORE entry for an IGNORE entry); [lshape] = the entries of the loaded Manifests are as the parser builds them (no file
+   entry tagged IGNORE / TIMESTAMP), an invariant of every loader (C18, Proofs/ReadSafe.v) *)
+Theorem C01_entry_dictionary_drops_nothing : forall (L : hashlib) decompress pgp w l path v l' ed, lshape l' ->
+  get_file_entry_dict L decompress pgp w l path None v = Ok (l', ed) ->
+  forall mp rel m e, In (mp, rel, m) (iter_manifests l' path true) -> In e (entries_of m) ->
+    e_tag e <> TDIST /\ e_tag e <> TTIMESTAMP /\ path_starts_with (pjoin rel (e_path e)) path = true ->
+    exists dd e', assoc (dirname (pjoin rel (e_path e))) ed = Some dd /\ assoc (basename (e_path e)) dd = Some e' /\ covers e' e.
+Proof. exact entry_dict_covers. Qed.
+Print Assumptions C01_entry_dictionary_drops_nothing.
+
+(* ... hence every entry of every relevant loaded Manifest beneath the directory is checked, and reported when the check fails *)
+Theorem C01_every_manifest_entry_is_checked : forall (L : hashlib) decompress pgp,
+  (forall s, safe (hl_hexdigest L s)) -> (forall f d, safe (decompress f d)) -> (forall t, safe (pgp t)) ->
+  forall w, sane_faults w -> forall l path pol lm l' b log, lshape l ->
+  assert_directory_verifies L decompress pgp w l path pol lm = Ok (l', b, log) ->
+  forall mp rel m e, In (mp, rel, m) (iter_manifests l' path true) -> In e (entries_of m) -> wanted path rel e ->
+    exists e', covers e' e /\
+      presented L w (mk_vctx (l_top l') (l_dev l') pol lm) path
+                (pjoin (dirname (pjoin rel (e_path e))) (basename (e_path e))) (Some e') log.
+Proof. exact manifest_entries_checked. Qed.
+Print Assumptions C01_every_manifest_entry_is_checked.
+
 (* non-vacuity: top-level Manifest 'MANIFEST s/Manifest 9', s/Manifest 'DATA a 1', the files s/a and (listed nowhere) b;
    a keep-going verification of the whole tree returns False having reported exactly b; the directory s is reached *)
 Definition c01_w : world :=
@@ -183,4 +208,20 @@ Proof.
   do 3 eexists. split; [vm_compute; reflexivity|]. split; [vm_compute; reflexivity|]. split; [vm_compute; reflexivity|].
   eapply reach_down; [vm_compute; reflexivity|vm_compute; left; reflexivity|reflexivity| |apply reach_here].
   intros dd H. vm_compute in H. repeat (destruct H as [H|H]; [inversion H; subst; reflexivity|]). destruct H.
+Qed.
+
+(* non-vacuity of C01_every_manifest_entry_is_checked on the same tree: the loader is well-shaped, s/Manifest is loaded and
+   relevant after the verification, its entry 'DATA a 1' is wanted *)
+Example C01_manifest_entry_example :
+  exists l0 l' log m,
+    new_loader (table_hashlib []) c01_dec c01_pgp c01_w [77;97;110;105;102;101;115;116] (mk_opts None false None [] PDefault None None false) false true = Ok l0 /\
+    lshape l0 /\
+    assert_directory_verifies (table_hashlib []) c01_dec c01_pgp c01_w l0 [] PolFalse None = Ok (l', false, log) /\
+    In ([115;47;77;97;110;105;102;101;115;116], [115], m) (iter_manifests l' [] true) /\
+    In (EFile TDATA [97] [] 1 []) (entries_of m) /\ wanted [] [115] (EFile TDATA [97] [] 1 []).
+Proof.
+  do 4 eexists. split; [vm_compute; reflexivity|]. split.
+  { intros mp m H. vm_compute in H. repeat (destruct H as [H|H]; [inversion H; subst; repeat constructor|]). destruct H. }
+  split; [vm_compute; reflexivity|]. split; [vm_compute; left; reflexivity|]. split; [vm_compute; left; reflexivity|].
+  split; [discriminate|split; [discriminate|vm_compute; reflexivity]].
 Qed.
